@@ -81,6 +81,12 @@ def do_observe(job):
 
 def main():
     np.seterr(all="ignore")
+    try:
+        from vmon import harness as H
+
+        H.install_lp_time_limit()
+    except Exception:
+        pass
     for line in sys.stdin:
         line = line.strip()
         if not line:
